@@ -264,11 +264,68 @@ func (r SimByteReader) ReadByte() (byte, error) {
 
 // As wraps r in one of the capability variants (0 = plain io.Reader).
 func (r *SimReader) As(kind int) io.Reader {
-	switch kind % 3 {
+	switch kind % 4 {
 	case 1:
 		return SimWriterToReader{r}
 	case 2:
 		return SimByteReader{r}
+	case 3:
+		return &SimSeekReader{SimReader: r}
 	}
 	return r
+}
+
+// seekPreamble is what precedes the document in the stream of a SimSeekReader.
+var seekPreamble = []byte("# a preamble the caller has already consumed\nx,y,z\n1,2\n")
+
+// SimSeekReader also implements io.Seeker: the stream is a preamble followed
+// by the document, and the reader is handed over positioned at the start of
+// the document - like a file whose first lines the caller has read already.
+// Whoever seeks has to come back to where the reader was handed over.
+type SimSeekReader struct {
+	*SimReader
+	pre   int // bytes of the preamble still to deliver (only after a seek into it)
+	Seeks int
+}
+
+func (r *SimSeekReader) Read(p []byte) (int, error) {
+	if r.pre > 0 && len(p) > 0 {
+		n := copy(p, seekPreamble[len(seekPreamble)-r.pre:])
+		r.pre -= n
+		return n, nil
+	}
+	return r.SimReader.Read(p)
+}
+
+func (r *SimSeekReader) Seek(offset int64, whence int) (int64, error) {
+	r.Seeks++
+	cur := int64(len(seekPreamble) - r.pre + r.SimReader.pos)
+	if r.pre > 0 {
+		cur = int64(len(seekPreamble) - r.pre)
+	}
+	var abs int64
+	switch whence {
+	case io.SeekStart:
+		abs = offset
+	case io.SeekCurrent:
+		abs = cur + offset
+	case io.SeekEnd:
+		abs = int64(len(seekPreamble)+len(r.SimReader.Doc)) + offset
+	default:
+		return 0, errors.New("simio: invalid whence")
+	}
+	if abs < 0 {
+		return 0, errors.New("simio: negative position")
+	}
+	if abs < int64(len(seekPreamble)) {
+		r.pre = len(seekPreamble) - int(abs)
+		r.SimReader.pos = 0
+	} else {
+		r.pre = 0
+		r.SimReader.pos = int(abs) - len(seekPreamble)
+		if r.SimReader.pos > len(r.SimReader.Doc) {
+			r.SimReader.pos = len(r.SimReader.Doc)
+		}
+	}
+	return abs, nil
 }
